@@ -52,6 +52,10 @@ pub struct FaultCase {
     /// seek out of range) is simply not a workload
     #[serde(default)]
     pub generated: bool,
+    /// a caller that does not retry: after an API call fails the workload simply goes on with its next
+    /// step (the default is to retry the failed call up to three times first)
+    #[serde(default)]
+    pub no_retry: bool,
     pub workload: String,
     pub version: u16,
     pub max_buf: usize,
@@ -566,7 +570,7 @@ pub fn run_case(c: &FaultCase, base: Option<&(Vec<u8>, BTreeMap<String, Vec<u8>>
                 }
                 let failed = res.is_err();
                 log.results.push((idx, res));
-                if failed && tries < 3 {
+                if failed && tries < 3 && !c.no_retry {
                     tries += 1;
                     continue;
                 }
@@ -1060,6 +1064,43 @@ pub fn mutating_workloads() -> Vec<(String, usize, Vec<WStep>)> {
 /// Generated mutating workloads: a prefix that fixes the starting state of stream /a (empty, a
 /// flushed mini stream, a flushed regular stream), then EVERY sequence of `depth` steps over a
 /// step alphabet on that handle and on a second small stream, then flushes of everything.
+/// Workloads on a large V3 file: the write-back that needs the 110th FAT sector (the first one listed
+/// in a DIFAT sector, at 109 x 128 sectors = 7.14 MB) and the one that needs the 237th (second DIFAT
+/// sector).  Faults are injected only in the steps after the common prefix (last tuple field).
+pub fn large_mutating_workloads() -> Vec<(String, usize, Vec<WStep>, usize)> {
+    let mut v = Vec::new();
+    for (label, size) in [("first DIFAT sector", 7_080_000usize), ("second DIFAT sector", 15_335_000)] {
+        v.push((
+            format!("large file: write-back that adds the {}", label),
+            1 << 20,
+            vec![
+                WStep::Create,
+                WStep::CreateStream(0, "/big".into()),
+                WStep::Write(0, size),
+                WStep::Flush(0),
+                // leave the (large, already written) buffer window behind: the next write-back then
+                // consists of the appended bytes only
+                WStep::SeekStart(0, 0),
+                WStep::SeekEnd(0, 0),
+                // 6 steps above = prefix
+                WStep::Write(0, 10_000),
+                WStep::Flush(0),
+                WStep::CreateStream(1, "/b".into()),
+                WStep::Write(1, 5000),
+                WStep::Flush(1),
+                WStep::Flush(0),
+                WStep::Write(0, 600),
+                WStep::Flush(0),
+                WStep::DropHandle(0),
+                WStep::DropHandle(1),
+                WStep::CompFlush,
+            ],
+            6,
+        ));
+    }
+    v
+}
+
 pub fn generated_mutating_workloads(depth: usize) -> Vec<(String, usize, Vec<WStep>, usize)> {
     let prefixes: Vec<(&str, Vec<WStep>)> = vec![
         ("empty", vec![WStep::Create, WStep::CreateStream(0, "/a".into())]),
@@ -1383,4 +1424,145 @@ pub fn c18_explore(ctx: &Ctx, hists: &[History], chunks: &[usize], bufs: &[usize
     });
     use std::sync::atomic::Ordering::Relaxed;
     C18Stats { histories: hists.len() as u64, runs: runs.load(Relaxed), calls: calls.load(Relaxed) }
+}
+
+// ---------------------------------------------------------------------- //
+// C08 under faults: a resize that fails part-way, then (without a retry) a growth
+
+#[derive(Clone, Debug, Serialize, Deserialize)]
+pub struct ResizeFaultCase {
+    pub version: u16,
+    pub initial: usize,
+    pub first: u64,
+    pub second: u64,
+    /// index of the failing underlying call, counted from the start of the first set_len
+    pub fail_at: Option<u64>,
+}
+
+/// Runs one case; returns (underlying calls made by the first set_len, problem).
+pub fn run_resize_fault_case(c: &ResizeFaultCase) -> (u64, Option<(String, String)>) {
+    let mut calls = 0u64;
+    let res = guarded(|| -> Result<Option<String>, String> {
+        let ctl = FaultCtl::new();
+        let mem = MemFile::new(Vec::new());
+        let ff = FaultFile::new(mem.clone(), ctl.clone());
+        let mut comp = if c.version == 3 { CompoundFile::create_with_version(cfb::Version::V3, ff) } else { CompoundFile::create_with_version(cfb::Version::V4, ff) }.map_err(|e| format!("create: {}", e))?;
+        let pat = ops::pattern(4242, c.initial);
+        {
+            let mut s = comp.create_stream("/a").map_err(|e| format!("create_stream: {}", e))?;
+            s.write_all(&pat).map_err(|e| e.to_string())?;
+            s.flush().map_err(|e| e.to_string())?;
+        }
+        // a neighbour, so that freed sectors / mini sectors have somewhere to be reused from
+        {
+            let mut s = comp.create_stream("/z").map_err(|e| format!("create_stream: {}", e))?;
+            s.write_all(&ops::pattern(7, 100)).map_err(|e| e.to_string())?;
+            s.flush().map_err(|e| e.to_string())?;
+        }
+        let mut h = ops::NoDropOnPanic::new(comp.open_stream("/a").map_err(|e| e.to_string())?);
+        let mut plan = BTreeMap::new();
+        if let Some(k) = c.fail_at {
+            plan.insert(k, Fault::Fail);
+        }
+        ctl.arm(plan, false);
+        let r1 = h.set_len(c.first);
+        calls = ctl.count();
+        ctl.disarm();
+        drop(h);
+        if c.fail_at.is_some() && r1.is_ok() {
+            return Ok(None); // the fault index lies beyond this run's calls
+        }
+        // the caller does not retry: it looks at the stream again and grows it
+        let mut f = match comp.open_stream("/a") {
+            Ok(f) => ops::NoDropOnPanic::new(f),
+            Err(_) => return Ok(None),
+        };
+        let visible = f.len();
+        if f.set_len(c.second).is_err() || f.flush().is_err() {
+            return Ok(None);
+        }
+        drop(f);
+        let zero_from = visible.min(c.second) as usize;
+        let judge = |got: &[u8], how: &str| -> Option<String> {
+            if got.len() as u64 != c.second {
+                return None; // length disagreement after a failed call is not this oracle's business
+            }
+            got[zero_from..].iter().position(|&b| b != 0).map(|i| format!("{}: after a set_len({}) that failed and a set_len({}) from a visible length of {}, byte {} reads {:#04x} instead of zero", how, c.first, c.second, visible, zero_from + i, got[zero_from + i]))
+        };
+        let mut got = Vec::new();
+        match comp.open_stream("/a") {
+            Ok(mut s) => {
+                if s.read_to_end(&mut got).is_ok() {
+                    if let Some(m) = judge(&got, "live") {
+                        return Ok(Some(m));
+                    }
+                }
+            }
+            Err(_) => return Ok(None),
+        }
+        if let Ok(mut l) = ops::Live::open(mem.snapshot(), false) {
+            if let Ok(mut s) = l.comp.open_stream("/a") {
+                let mut got2 = Vec::new();
+                if s.read_to_end(&mut got2).is_ok() {
+                    if let Some(m) = judge(&got2, "reopened") {
+                        return Ok(Some(m));
+                    }
+                }
+            }
+        }
+        Ok(None)
+    });
+    match res {
+        Ok(Ok(None)) => (calls, None),
+        Ok(Ok(Some(m))) => (calls, Some(("array".into(), m))),
+        Ok(Err(e)) => (calls, Some(("machinery".into(), e))),
+        Err(p) => (calls, Some(("panic".into(), format!("resize under a fault panicked: {}", p)))),
+    }
+}
+
+/// Every (initial size, first resize, second resize) of the alphabets x a failure at every underlying
+/// call of the first resize.  Returns (runs, fault positions).
+pub fn explore_resize_faults(ctx: &Ctx, version: u16, thorough: bool) -> (u64, u64) {
+    let sl = if version == 3 { 512usize } else { 4096 };
+    let initials: Vec<usize> = if thorough { vec![300, 4000, 4096, 8192, 9000, 4 * sl + 4096, 20_000] } else { vec![300, 4000, 8192, 9000] };
+    let firsts: Vec<u64> = vec![0, 100, 4096, 4200, 4608, 8000];
+    let seconds: Vec<u64> = if thorough { vec![200, 4095, 5000, 7200, 12_000, 30_000] } else { vec![200, 5000, 7200, 12_000] };
+    let mut cases = Vec::new();
+    for &i in &initials {
+        for &a in &firsts {
+            if a as usize == i {
+                continue;
+            }
+            for &b in &seconds {
+                cases.push(ResizeFaultCase { version, initial: i, first: a, second: b, fail_at: None });
+            }
+        }
+    }
+    let counts: Vec<(u64, u64)> = cases
+        .par_iter()
+        .map(|c0| {
+            let (n, p) = run_resize_fault_case(c0);
+            let mut runs = 1u64;
+            if let Some((class, msg)) = p {
+                ctx.report(Violation { sig: format!("{}:zero-growth-reference:{}", class, sig_norm(&msg).chars().take(60).collect::<String>()), class, msg, replay: json!({"kind": "resize_fault", "resize_fault": c0}) });
+                return (runs, 0);
+            }
+            for k in 0..n {
+                let c = ResizeFaultCase { fail_at: Some(k), ..c0.clone() };
+                let (_, p) = run_resize_fault_case(&c);
+                runs += 1;
+                if let Some((class, msg)) = p {
+                    let what = if class == "array" { "stale-bytes-after-failed-resize-then-growth".to_string() } else { sig_norm(&msg).chars().take(80).collect::<String>() };
+                    ctx.report(Violation { sig: format!("{}:{}", class, what), class, msg: format!("{} [v{} initial {} fault at call {} of the first resize]", msg, version, c.initial, k), replay: json!({"kind": "resize_fault", "resize_fault": c}) });
+                }
+            }
+            (runs, n)
+        })
+        .collect();
+    let mut t = (0u64, 0u64);
+    for (a, b) in counts {
+        t.0 += a;
+        t.1 += b;
+    }
+    t
 }
